@@ -129,10 +129,11 @@ def run(ck):
             return ["rbm_am"] if cls == "PositiveWaveFunction" else ["rbm_am", "rbm_ph"]
 
         reserved = nets_of() + ([] if cls == "PositiveWaveFunction" else ["unitary_dict"])
-        for key in reserved:
-            inst = "%s.save/reserved key %s" % (cls, key)
+        # the reserved name may stand anywhere among the caller's entries: first, or after an ordinary one
+        for key, first in [(k_, f_) for k_ in reserved for f_ in (True, False)]:
+            inst = "%s.save/reserved key %s%s" % (cls, key, "" if first else " after an ordinary entry")
             with ck.guard("C11.R2", inst, ssite):
-                paths = _save_paths(ck, cls, lambda it, key=key: it.new_dict({key: VConst(1), "note": VConst("x")}, origin="param:metadata"))
+                paths = _save_paths(ck, cls, lambda it, key=key, first=first: it.new_dict({key: VConst(1), "note": VConst("x")} if first else {"note": VConst("x"), key: VConst(1)}, origin="param:metadata"))
                 for p in paths:
                     if p.outcome == "raise" and p.value.exc_name == "ValueError":
                         io = [e for e in p.effects if e.kind == "ext" and "io:save" in e.origins]
@@ -180,6 +181,24 @@ def run(ck):
                     ck.check(bool(absent), "C11.R3", cls + ".load:unitary_dict restored whenever the file has one/" + _c(p), lsite,
                              "on this path load() leaves the model's own unitary dictionary in place although the file holds one (%s): a saved dictionary with the same names but other matrices "
                              "(a user-redefined X) is not restored" % ", ".join("%s=%s" % (c[1][:40], c[2]) for c in p.conds)[:200], key="C11.R3|%s.load|unitary_dict kept" % cls)
+        if cls != "PositiveWaveFunction":
+            # load has no side effect outside the model it fills: a model built from a dictionary of the caller's own unitaries
+            # holds those very tensors (`.to` of a tensor already in place is the tensor), and so does every other model built
+            # from that dictionary - load replaces the model's entries, it does not write into them
+            with ck.guard("C11.R3", cls + ".load:caller's unitaries", lsite):
+                def thlu(it):
+                    ud = it.new_dict({k_: tens(it, "user_" + k_, (2, 2, 2)) for k_ in ("X", "Y", "Z", "Q")}, origin="param:unitary_dict")
+                    s = make_state(it, cls, extra_kwargs={"unitary_dict": ud})
+                    call(it, s, "load", api.basis_str(it))
+                    return s
+
+                for p in paths_of(prog, thlu, max_paths=20):
+                    if p.outcome != "return":
+                        continue
+                    wr = [e for e in p.effects if e.kind == "write" and any(o.startswith("param:user_") for o in e.origins)]
+                    ck.check(not wr, "C11.R3", cls + ".load:the caller's unitary tensors are not written/" + _c(p), lsite,
+                             "load writes in place into %s, a tensor of the dictionary the model was built from: the caller's dictionary and every other model built from it change with it (%s)"
+                             % (sorted({o for e in wr for o in e.origins if o.startswith("param:user_")})[:2], wr[0].site if wr else ""), key="C11.R3|%s.load|caller unitary written" % cls)
         asite = prog.method(cls, "autoload").site()
         with ck.guard("C11.R3", cls + ".autoload", asite):
             af = prog.cls(cls).find_method("autoload")
